@@ -54,4 +54,17 @@ PROPS["C14"] = {
     "nontrivial_min_tokens": 30,
 }
 
+PROPS["C07"] = {
+    "level_text": "Generic theorems about a format language in which all eight WriteTo/ReadFrom pairs are written as descriptors: decode(encode v ++ rest) = (v, rest) for every well-typed value (so concatenated hybrid+vector+text+metadata streams decode), a successful decode consumed exactly an encoding, and model-state conversions for the exhaustive kinds; tied to the code by (i) the model decoding every stream Go writes and re-encoding it bit-identically from the model state, (ii) Go reading back with exact byte counts / consumption, (iii) continuation histories on the reloaded index compared with the model state rebuilt from the bytes.",
+    "level_note": "Trusted: as C02; roaring bitmap / BSI blobs are opaque length-prefixed byte strings. Byte-count bookkeeping (returned n = stream length) and reload equivalence for HNSW/BM25/metadata/hybrid are observed on the implementation (checker 703), not derived from a model of those indexes' search.",
+    "correspondence": "*.WriteTo/ReadFrom ~ Model.Codecs descriptors (Model.Format)",
+    "nontrivial_min_tokens": 30, "sub_max_len": 20000, "sub_per_checker": 4,
+}
+PROPS["C16"] = {
+    "level_text": "Theorem decode_strict_prefix_fails: for EVERY format, EVERY well-typed value and EVERY strict prefix of its encoding the decoder fails (no bound on length), plus extension-invariance; kind/version/parameter mismatches fail because validated fields are constants of the receiver's descriptor. Tied to the code by running Go's ReadFrom on every prefix of real streams of all eight kinds and on the kind x kind / parameter-mismatch matrices, and requiring the model decoder to agree case by case.",
+    "level_note": "Trusted: as C07. gzip framing of segment files is covered under C10/C09 (store), not here.",
+    "correspondence": "*.ReadFrom ~ Model.Format.decode on Model.Codecs descriptors",
+    "nontrivial_min_tokens": 20, "sub_max_len": 3000, "sub_per_checker": 4,
+}
+
 NOT_YET = {}
